@@ -10,6 +10,7 @@ struct Outcome {
         uint64_t runs = 0;      // engine executions performed
         uint64_t twin_pairs = 0;
         uint64_t enum_points = 0; // fault positions enumerated (C16)
+        std::vector<std::pair<uint64_t, uint64_t>> variant_hashes; // C16: (which<<32 | k, event-log hash) of every enumerated fault position
         bool has_fail_plan = false;
         Plan fail_plan;           // plan to store as replay when the violation was found in a derived variant
 };
